@@ -21,6 +21,11 @@ type c11Case struct {
 	A []string `json:"a,omitempty"`
 	B []string `json:"b,omitempty"`
 	C []string `json:"c,omitempty"`
+	// slots: content / supply form / component / depth
+	Content string `json:"content,omitempty"`
+	Supply  string `json:"supply,omitempty"`
+	Comp    string `json:"comp,omitempty"`
+	Depth   string `json:"depth,omitempty"`
 	// source
 	Tokens []int  `json:"tokens,omitempty"`
 	As     string `json:"as,omitempty"` // string | file | frontmatter
@@ -35,6 +40,8 @@ func (c *c11Case) CrashWhere() string {
 		return "types/" + c.Pos
 	case "graph":
 		return "graph"
+	case "slots":
+		return "slots/" + c.Depth
 	}
 	return "source/" + c.As
 }
@@ -178,6 +185,46 @@ func (c *c11Case) Run(ctx *core.Ctx) {
 		if !cyc && err != nil {
 			ctx.Violation("acyclic-graph-fails", "include-graph", cycleClass(c), fmt.Sprintf("no cycle but render failed: %v\n%s", err, files))
 		}
+	case "slots":
+		comps := map[string]string{
+			"default": `<div><slot>cfb</slot></div>`,
+			"named":   `<div><slot name="x">cfb</slot></div>`,
+			"twice":   `<div><slot></slot><slot name="x"></slot><slot></slot></div>`,
+			"infor":   `<ul><li v-for="i in two"><slot :i="i">cfb</slot></li></ul>`,
+		}
+		contents := map[string]string{
+			"slot":        `<slot></slot>`,
+			"slot-fb":     `<p>x</p><slot>inner fallback</slot>`,
+			"slot-named":  `<slot name="x">q</slot>`,
+			"slot-in-inc": `<template include="comp.vuego"><slot></slot></template>`,
+			"self-inc":    `<template include="comp.vuego"><template #x><slot name="x"></slot></template><slot></slot></template>`,
+		}
+		content := contents[c.Content]
+		var supplied string
+		switch c.Supply {
+		case "plain":
+			supplied = content
+		case "vslot":
+			supplied = `<template v-slot>` + content + `</template>`
+		case "hash-x":
+			supplied = `<template #x>` + content + `</template>`
+		case "both":
+			supplied = `<template #x>` + content + `</template>` + content
+		}
+		files := Files{"comp.vuego": comps[c.Comp], "mid.vuego": `<section><template include="comp.vuego">` + supplied + `</template></section>`}
+		page := "page.vuego"
+		switch c.Depth {
+		case "top":
+			files["page.vuego"] = `<template include="comp.vuego">` + supplied + `</template>`
+		case "middle":
+			files["page.vuego"] = `<template include="mid.vuego">` + supplied + `</template>`
+		case "layout":
+			files["page.vuego"] = "---\nlayout: l\n---\n" + supplied + `<template include="comp.vuego">` + supplied + `</template>`
+			files["layouts/l.vuego"] = `<main><slot name="x">lfb</slot><slot></slot><div v-html="content"></div><template include="comp.vuego"></template></main>`
+		}
+		ctx.Eval(1)
+		err := vuego.NewFS(files.FS()).Load(page).Fill(map[string]any{"two": []int{1, 2}}).Render(bg, &buf)
+		ctx.Outcome(fmt.Sprint(err != nil))
 	case "source":
 		src := c.Src
 		ctx.Eval(1)
@@ -264,6 +311,15 @@ func init() {
 				for _, b := range opts {
 					for _, cc := range opts {
 						emit(&c11Case{Part: "graph", A: a, B: b, C: cc})
+					}
+				}
+			}
+			for _, content := range []string{"slot", "slot-fb", "slot-named", "slot-in-inc", "self-inc"} {
+				for _, supply := range []string{"plain", "vslot", "hash-x", "both"} {
+					for _, comp := range []string{"default", "named", "twice", "infor"} {
+						for _, depth := range []string{"top", "middle", "layout"} {
+							emit(&c11Case{Part: "slots", Content: content, Supply: supply, Comp: comp, Depth: depth})
+						}
 					}
 				}
 			}
